@@ -172,6 +172,16 @@ def run_one(ch, cfg):
                         {"gathering_failed": 1, "class." + cls: 1}, {"class": cls, "exit": st})
         root_der = pki.root_der
         doc = A.load_json(w, A.SGX_ATT)
+        # history dimension: the same process first validates the genuine certificate (a verifier
+        # that is used more than once must judge every artefact on its own)
+        if ch.draw(2, "validate-genuine-first") == 0:
+            try:
+                w.activate()
+                HSMCertificate.from_jsonfile(A.SGX_ATT).validate_and_get_values(
+                    HSMCertificateV2ElementX509({"name": "sgx_root", "signed_by": "sgx_root",
+                                                 "message": base64.b64encode(root_der).decode()}))
+            except Exception:
+                pass
         if cls == "at-rest":
             kind = ch.pick(["bytes", "bytes", "bytes", "re-parent", "re-sign", "swap-x509"], "rest.kind")
             elems = doc["elements"]
